@@ -108,6 +108,54 @@ pub fn check_type(i: usize) -> Vec<V> {
     }
 }
 
+/// Block A delivered in a configuration attempt that fails (wrong count), then block B in the retry, without a reset:
+/// the virtual sign must report B and accept exactly a page of B's size.
+pub fn check_pair(i: usize, j: usize) -> Vec<V> {
+    let (ta, tb) = (SIGN_TYPES[i].0, SIGN_TYPES[j].0);
+    let name = format!("{:?}-then-{:?}", ta, tb);
+    let r = catch(|| {
+        let mut out: Vec<V> = vec![];
+        let own = Address(3);
+        for variant in 0..2 {
+            let mut s = VirtualSign::new(own, PageFlipStyle::Manual);
+            let _ = s.process_message(&Message::RequestOperation(own, Operation::ReceiveConfig));
+            let _ = s.process_message(&Message::SendData(Offset(0), Data::try_new(ta.to_bytes()).unwrap()));
+            if variant == 0 {
+                // failed attempt, then retry
+                let _ = s.process_message(&Message::DataChunksSent(ChunkCount(7)));
+                let _ = s.process_message(&Message::RequestOperation(own, Operation::ReceiveConfig));
+                let _ = s.process_message(&Message::SendData(Offset(0), Data::try_new(tb.to_bytes()).unwrap()));
+                let _ = s.process_message(&Message::DataChunksSent(ChunkCount(1)));
+            } else {
+                // two blocks in one conversation
+                let _ = s.process_message(&Message::SendData(Offset(0), Data::try_new(tb.to_bytes()).unwrap()));
+                let _ = s.process_message(&Message::DataChunksSent(ChunkCount(2)));
+            }
+            if s.state() != State::ConfigReceived || s.sign_type() != Some(tb) {
+                out.push(("virtual-sign-derivation", format!("second-block:{}", if i == j { "same-type" } else { "other-type" }), format!("{} (variant {}): state {:?}, type {:?}", name, variant, s.state(), s.sign_type())));
+                continue;
+            }
+            let (w, h) = tb.dimensions();
+            let page = Page::new(PageId(9), w, h);
+            let _ = s.process_message(&Message::RequestOperation(own, Operation::ReceivePixels));
+            let mut n = 0u16;
+            for (ci, chunk) in page.as_bytes().chunks(16).enumerate() {
+                let _ = s.process_message(&Message::SendData(Offset((ci * 16) as u16), Data::try_new(chunk).unwrap()));
+                n += 1;
+            }
+            let _ = s.process_message(&Message::DataChunksSent(ChunkCount(n)));
+            if !(s.pages().len() == 1 && s.pages()[0] == page) {
+                out.push(("virtual-sign-derivation", format!("second-block-size:{}", if i == j { "same-type" } else { "other-type" }), format!("{} (variant {}): a {}x{} page was sent, the sign holds {:?}", name, variant, w, h, s.pages().iter().map(|p| (p.width(), p.height())).collect::<Vec<_>>())));
+            }
+        }
+        out
+    });
+    match r {
+        Ok(v) => v,
+        Err(p) => vec![("no-panic", p.class(), format!("{}: panicked: {}", name, p.message))],
+    }
+}
+
 /// Decoding an arbitrary byte string.
 pub fn check_decode(bytes: &[u8]) -> (&'static str, Vec<V>) {
     let want: Result<SignType, bool> = if bytes.len() != 16 {
@@ -167,7 +215,7 @@ pub fn run(ctx: &Ctx) -> Report {
     let mut rep = Report::new(ctx);
     let thorough = ctx.tier.thorough();
     rep.rule = "all 11 sign types (block fields vs dimensions, block round trip, and a real VirtualSign configured with the block must store exactly a page of the type's size and reject neighbouring sizes); \
-                all 65536 (family,id) pairs x 4 fills of the other 14 bytes; every length 0..=40 x 3 fills x leading bytes of each real block; single-byte variations of every byte of every real block. \
+                all 65536 (family,id) pairs x 4 fills of the other 14 bytes; every length 0..=600 and lengths = 16 mod 256 / mod 65536 up to 131088 x fills x leading bytes of each real block; for every ordered pair of types a failed configuration attempt with A followed by a retry with B (the sign must derive B's size); single-byte variations of every byte of every real block. \
                 Non-trivial = 16-byte strings (they reach the family/id decision) and the per-type checks; distinct by bytes"
         .into();
     rep.trusted_base = vec!["refmodel::SIGN_TYPES (literal table type <-> family/id <-> w x h)".into()];
@@ -176,6 +224,15 @@ pub fn run(ctx: &Ctx) -> Report {
         rep.distinct_nontrivial += 1;
         for (clause, class, detail) in check_type(i) {
             rep.violation(Violation::new(clause, class, detail, json!({"kind": "type", "index": i}), i as u64));
+        }
+    }
+    for i in 0..11 {
+        for j in 0..11 {
+            rep.evaluations += 1;
+            rep.distinct_nontrivial += 1;
+            for (clause, class, detail) in check_pair(i, j) {
+                rep.violation(Violation::new(clause, class, detail, json!({"kind": "pair", "a": i, "b": j}), 20 + (i * 11 + j) as u64));
+            }
         }
     }
     let fills = if thorough { 4 } else { 2 };
@@ -201,8 +258,17 @@ pub fn run(ctx: &Ctx) -> Report {
     leads.push(vec![0x04, 0x00]);
     leads.push(vec![]);
     let mut k = 0u64;
-    for l in 0..=40usize {
+    // every length 0..=600, and lengths congruent to 16 modulo 256 / 65536 (a length check done in a narrower integer)
+    let mut lens: Vec<usize> = (0..=600).collect();
+    for k in 3..=40usize {
+        lens.push(16 + 256 * k);
+    }
+    lens.extend([65535, 65536, 65536 + 16, 65536 + 272, 70000, 16 + 256 * 256 * 2]);
+    for l in lens {
         for f in 0..3u64 {
+            if l > 40 && f > 0 {
+                continue;
+            }
             for lead in &leads {
                 let mut b = tail(f, l);
                 for (j, &x) in lead.iter().enumerate() {
@@ -247,8 +313,8 @@ pub fn run(ctx: &Ctx) -> Report {
     all.samples.push(json!({"bytes": "04 47 + 14 x FF", "expected": "accepted as Max3000Front112x16 (only family and id decide)"}));
     all.samples.push(json!({"bytes": "15 bytes of a real block", "expected": "WrongConfigLength{16,15}"}));
     let nt = rep.absorb(all);
-    rep.states = nt + 11;
-    rep.distinct_nontrivial = nt + 11;
+    rep.states = nt + 11 + 121;
+    rep.distinct_nontrivial = nt + 11 + 121;
     rep.transitions = rep.evaluations;
     for c in ["accepted", "wrong-length", "unknown-config"] {
         rep.guard(&format!("class-{}", c), rep.outcomes.get(c) > 0, format!("{}", rep.outcomes.get(c)));
@@ -259,6 +325,7 @@ pub fn run(ctx: &Ctx) -> Report {
 pub fn replay(_ctx: &Ctx, case: &Value) -> Result<Vec<Violation>, String> {
     match case["kind"].as_str() {
         Some("type") => Ok(check_type(case["index"].as_u64().ok_or("index")? as usize).into_iter().map(|(c, k, d)| Violation::new(c, k, d, case.clone(), 0)).collect()),
+        Some("pair") => Ok(check_pair(case["a"].as_u64().ok_or("a")? as usize, case["b"].as_u64().ok_or("b")? as usize).into_iter().map(|(c, k, d)| Violation::new(c, k, d, case.clone(), 0)).collect()),
         Some("bytes") => {
             let b = unhex(case["bytes"].as_str().ok_or("bytes")?);
             let (_, vs) = check_decode(&b);
